@@ -811,6 +811,11 @@ Theorem processes_mem_outputs_lost_thm : forall sched o0 pre ws o,
   fst (extract MProcs TMem sched o0 pre ws) o = fst (lrun (eff pre) o0 0) o.
 Proof. intros. unfold extract. destruct (first_fail pre); reflexivity. Qed.
 
+(* after the proposed repair processes behave as threads do *)
+Theorem processes_repaired_as_threads_thm : forall t sched o0 pre ws,
+  extract MProcsFixed t sched o0 pre ws = extract MThreads t sched o0 pre ws.
+Proof. intros. unfold extract. destruct (first_fail pre); reflexivity. Qed.
+
 Theorem pre_error_all_modes_thm : forall md t sched o0 pre ws e,
   first_fail pre = Some e -> snd (extract md t sched o0 pre ws) = Err e.
 Proof. intros md t sched o0 pre ws e H. unfold extract. rewrite H. reflexivity. Qed.
